@@ -54,6 +54,7 @@ type Engine struct {
 	Obls        []*Obligation
 	instCount   map[string]int
 	dry         int // >0: discard everything (loop modified-set discovery)
+	callPreTime string // clock before the call whose frame is being applied
 	freshSince  string // clock GvcFresh is relative to while a callee's post-condition is evaluated at a call site
 	noOblig     int // >0: evaluate without emitting obligations (spec evaluation)
 	nGlobals    int
@@ -733,6 +734,39 @@ func (e *Engine) heap(st *State, name, sort string) T {
 
 // initialHeapAxioms: everything stored in the entry heap existed at entry (newid = 0).
 func (e *Engine) initialHeapAxioms(c, sort string) {
+	if os.Getenv("GVC_INITGUARD") == "" {
+		e.initialHeapAxiomsUnguarded(c, sort)
+		return
+	}
+	if !strings.HasPrefix(sort, "(Array Ref ") {
+		switch sort {
+		case sRef:
+			e.emitDecl(fmt.Sprintf("(assert (= (newid %s) 0))", c))
+		case sSlice:
+			e.emitDecl(fmt.Sprintf("(assert (and (= (newid (sbase %s)) 0) (wf_slice %s)))", c, c))
+		}
+		return
+	}
+	_, v := arrayKV(sort)
+	switch v {
+	case sRef:
+		e.emitDecl(fmt.Sprintf("(assert (forall ((x Ref)) (! (=> (= (newid x) 0) (= (newid (select %s x)) 0)) :pattern ((select %s x)))))", c, c))
+	case sSlice:
+		e.emitDecl(fmt.Sprintf("(assert (forall ((x Ref)) (! (and (=> (= (newid x) 0) (= (newid (sbase (select %s x))) 0)) (wf_slice (select %s x))) %s)))", c, c, slicePatterns("(select "+c+" x)")))
+	case sIface:
+		e.emitDecl(fmt.Sprintf("(assert (forall ((x Ref)) (! (=> (and (= (newid x) 0) ((_ is if_ref) (select %s x))) (= (newid (iref (select %s x))) 0)) :pattern ((select %s x)))))", c, c, c))
+	case "(Array Int Ref)":
+		e.emitDecl(fmt.Sprintf("(assert (forall ((x Ref) (i Int)) (! (=> (= (newid x) 0) (= (newid (select (select %s x) i)) 0)) :pattern ((select (select %s x) i)))))", c, c))
+	case "(Array Int Slice)":
+		e.emitDecl(fmt.Sprintf("(assert (forall ((x Ref) (i Int)) (! (and (=> (= (newid x) 0) (= (newid (sbase (select (select %s x) i))) 0)) (wf_slice (select (select %s x) i))) %s)))", c, c, slicePatterns("(select (select "+c+" x) i)")))
+	case "(Array Int Iface)":
+		e.emitDecl(fmt.Sprintf("(assert (forall ((x Ref) (i Int)) (! (=> (and (= (newid x) 0) ((_ is if_ref) (select (select %s x) i))) (= (newid (iref (select (select %s x) i))) 0)) :pattern ((select (select %s x) i)))))", c, c, c))
+	}
+}
+
+// initialHeapAxiomsUnguarded: the same for every reference, allocated or not (the form used
+// before the guard was introduced; kept for comparison runs).
+func (e *Engine) initialHeapAxiomsUnguarded(c, sort string) {
 	if !strings.HasPrefix(sort, "(Array Ref ") {
 		switch sort {
 		case sRef:
